@@ -2012,6 +2012,12 @@ impl Compiler {
 
         let mut func_compiler = Compiler::new();
 
+        // Propagate source file for stack traces
+        func_compiler.source_file = self.source_file.clone();
+        if let Some(ref path) = self.source_file {
+            func_compiler.builder.set_source_file(path.clone());
+        }
+
         // Copy the class context so private field access works inside the constructor
         func_compiler.class_context_stack = self.class_context_stack.clone();
 
@@ -2195,6 +2201,12 @@ impl Compiler {
         use super::FunctionInfo;
 
         let mut func_compiler = Compiler::new();
+
+        // Propagate source file for stack traces
+        func_compiler.source_file = self.source_file.clone();
+        if let Some(ref path) = self.source_file {
+            func_compiler.builder.set_source_file(path.clone());
+        }
 
         // Copy the class context so private field access works inside the constructor
         func_compiler.class_context_stack = self.class_context_stack.clone();
